@@ -381,7 +381,11 @@ func runWorker(o workerOpts) *WorkerResult {
 	sort.Strings(res.Witnessed)
 	res.Terms = len(termList)
 	if !o.noCross {
-		res.Cross = crossCheck(r.crossQ, o.timeout)
+		ct := 5000
+		if o.tier > 0 {
+			ct = 20000
+		}
+		res.Cross = crossCheck(r.crossQ, ct)
 	}
 	return res
 }
